@@ -1607,7 +1607,6 @@ func localDerivedFromAccessor(info *types.Info, body ast.Node, v, recv types.Obj
 	return hit
 }
 
-
 // c11ProtoImageFileBuilder finds, by what it does rather than by its name, the function of bufimage that builds the
 // proto form of an image file: the one holding the imagev1.ImageFile_builder literal.
 func c11ProtoImageFileBuilder(p *Prog) *FuncRef {
